@@ -250,7 +250,7 @@ func rerun(path string) {
 			}
 		}
 		c.Base, _ = runQuery(ctx, st, c.BaseQ)
-		res, stm := runQuery(ctx, st, c.Q)
+		res, stm := runHaving(ctx, st, c.Shape, c.Q, ts, c.Base)
 		c.Res = res
 		if stm != nil && mode == "e2e12" {
 			c.CfgSeen = seenCfg(stm.OrderByConfig())
